@@ -26,11 +26,11 @@ RULE = ("seeded random cases: operator and call form (merge factory / merge oper
         "merge(max_concurrent=n), n in 1..4 / flat_map and flat_map_indexed with a mapper, a constant observable or an "
         "iterable mapper result / concat_map), outer probe source (cold, hot or synchronous) with 0..5 arrivals ending "
         "in C / E / never, 1..4 inner probe sources (cold, hot, synchronous) with 0..3 elements ending in C / E / never, "
-        "the same inner may arrive twice; non-trivial = at least two inner subscriptions; distinct = digest of "
+        "the same inner may arrive twice, subscription with scheduler=TestScheduler or without a scheduler argument; non-trivial = at least two inner subscriptions; distinct = digest of "
         "(operator, form, parameters, timelines)")
 ASSUMPTIONS = ["reactivex.testing.TestScheduler is the clock (checked by C28)", "probe sources are harness code (conforming)",
                "map / map_indexed / from_iterable are used inside the operators under test (checked by C05 / C37)"]
-CASES = {"quick": 6000, "thorough": 120000}
+CASES = {"quick": 6000, "thorough": 360000}
 UNIT_TIMEOUT = {"quick": 300, "thorough": 3600}
 OPS = ["merge", "merge_all", "flat_map", "flat_map_indexed", "concat_map", "merge_max_concurrent"]
 REQUIRED = {"set:ops": len(OPS), "inner_subscriptions": {"quick": 6000, "thorough": 120000},
@@ -87,6 +87,7 @@ def gen_case(r: Any, idx: int) -> dict:
         if P.get("form") == "const":
             # the constant inner must be re-subscribable
             P["const"] = r.choice(names)
+    P["scheduler_arg"] = r.random() < 0.7
     return {"op": op, "P": P, "outer": outer, "inners": inners, "static": static, "domain": domain}
 
 
@@ -255,7 +256,7 @@ def run_case(seed: int, idx: int, res: UnitResult) -> None:
         if case["op"] in ("merge_all", "merge_max_concurrent"):
             spec["tl"] = [(t, k, S[v] if k == "N" else v) for (t, k, v) in spec["tl"]]   # the outer emits the observables
         outer_src = build_source(lab, spec)
-    top = run_pipeline(lab, lambda: build(case, lab, S, outer_src))
+    top = run_pipeline(lab, lambda: build(case, lab, S, outer_src), with_scheduler=case["P"]["scheduler_arg"])
     actual = top.timed()
     expected, owners, problems, st = monitor(case, lab, SUB_AT)
     desc = describe(case)
@@ -281,6 +282,8 @@ def run_case(seed: int, idx: int, res: UnitResult) -> None:
         res.count("cases_with_sync_inner")
     if any(s.get("kind") == "hot" for s in case["inners"].values()):
         res.count("cases_with_hot_inner")
+    if not case["P"]["scheduler_arg"]:
+        res.count("cases_subscribed_without_scheduler_argument")
     if st["max_open"] >= 2:
         res.count("cases_with_concurrent_inners")
 
